@@ -163,18 +163,7 @@ impl SyntaxPattern {
                                 );
                             }
                         }
-                        SyntaxPatternBody::Identifier(var) if pattern_literals.contains(var) => {
-                            Self::match_datum_stream(
-                                pattern_index + 1,
-                                datum_index + 1,
-                                depth,
-                                patterns,
-                                datums,
-                                pattern_literals,
-                                substitutions,
-                                None,
-                            )?
-                        }
+                        // (a literal identifier may be repeated by an ellipsis like any other sub-pattern)
                         _ => Self::match_datum_stream(
                             pattern_index + 1,
                             datum_index + 1,
